@@ -247,7 +247,8 @@ def build_test(rs, root, label, obs_mode, N):
     X = np.tile(xrow, (N, 1))
     # half of the tests: the N rows under test are shuffled into ONE batch with rows carrying other evidence patterns (every
     # variable missing in some row, some rows complete, some empty) — what a row is filled with may depend on that row only
-    mixed = bool(rs.rand() < 0.5) and len(scope) > 1
+    # (a stand-alone Chow-Liu tree has code paths of its own for columns missing in EVERY row: mostly homogeneous batches there)
+    mixed = bool(rs.rand() < (0.25 if isinstance(root, BinaryCLT) else 0.5)) and len(scope) > 1
     sel = None
     if mixed:
         F = max(8, N // 4)
